@@ -287,6 +287,22 @@ register("C15",
          "TLC trace validation of volume events against an independent Monte-Carlo oracle; TLA+ life-cycle model",
          "DESIGN.md §4 C15, §7")
 
+register("C06",
+         "Mechanism: Polygon.tla is an exact operational model of order_points + get_polygon_area on convex lattice polygons "
+         "(centroid, reference normal, signed-angle keys compared exactly through cross-multiplied integers, stable sort, "
+         "fan triangulation); TLC checks it against the shoelace area for ALL 2 694 (quick) / ~30 000 (thorough) strictly "
+         "convex lattice polygons with 3..6 vertices of a 4x4 / 5x5 window and every choice of first and second vertex; "
+         "with the pinned tree's sign(0) rule TLC returns the counterexample. 12 000 of those inputs, embedded in three "
+         "planes by integer affine maps, are replayed into the real functions and validated by TLC against the spec's own "
+         "shoelace area. Grids: PositionGrid(cartesian=True) of all algorithms with 1-3 radii against a brute-force R^3 "
+         "Voronoi oracle; TLC checks volumes (closed cells) = oracle, positivity, borders/distances symmetric and on the "
+         "adjacency pattern, border = shared face area, distance = Euclidean distance.",
+         "Grid part relative to the numeric oracle harness/oracles/r3.py (all 4-subsets, no scipy.spatial / molgri code), "
+         "value classes at 1e-7; extended point sets up to ~60 (quick) / ~90 (thorough) points; cells whose Euclidean region "
+         "is open are unconstrained in value.",
+         "TLA+ exact operational model checked exhaustively by TLC + polygons replayed into the implementation + TLC trace "
+         "validation of grids against an independent brute-force oracle", "DESIGN.md §4 C06")
+
 ALL = [f"C{i:02d}" for i in range(1, 21)]
 
 
